@@ -127,6 +127,8 @@ type Master struct {
 	// OfferDelay > 0: the offer round that answers a REVIVE arrives that much (virtual time) later instead of
 	// within the call (a master that takes a moment: the caller is parked on its outcome channel by then)
 	OfferDelay time.Duration
+	// ReconcileDelay > 0: the answers to a RECONCILE call reach the framework that much (virtual time) later.
+	ReconcileDelay time.Duration
 }
 
 // NewMaster creates a master with the given agents.
@@ -244,7 +246,27 @@ func (m *Master) call(ctx context.Context, c *scheduler.Call) (mesos.Response, e
 		return m.message(fid, c.GetMessage())
 	case scheduler.Call_RECONCILE:
 		m.rec(CallRec{Type: "RECONCILE", FID: fid})
-		if m.Reconcile {
+		if m.Reconcile && m.ReconcileDelay > 0 {
+			// the answers are those of the instant of the call; they reach the framework later
+			var evs []*scheduler.Event
+			for _, id := range m.TaskOrder {
+				if t := m.Tasks[id]; t.Alive && !m.reconLost[id] {
+					r, ms := mesos.REASON_RECONCILIATION, t.MesosState
+					evs = append(evs, &scheduler.Event{Type: scheduler.Event_UPDATE, Update: &scheduler.Event_Update{Status: mesos.TaskStatus{
+						TaskID: mesos.TaskID{Value: t.ID}, State: &ms, AgentID: &mesos.AgentID{Value: t.AgentID},
+						ExecutorID: &mesos.ExecutorID{Value: t.ExecutorID}, Reason: &r, Source: mesos.SOURCE_MASTER.Enum()}}})
+				}
+			}
+			ep := m.epoch
+			vrt.AfterFunc(m.ReconcileDelay, func() {
+				if m.epoch != ep || !m.connected {
+					return
+				}
+				for _, ev := range evs {
+					m.push(ev)
+				}
+			})
+		} else if m.Reconcile {
 			for _, id := range m.TaskOrder {
 				t := m.Tasks[id]
 				if m.reconLost[id] {
